@@ -1,8 +1,9 @@
-from contracts import views_cache, views_types, views_nodes, views_static, views_build, detopts, symtab
+from contracts import views_cache, views_types, views_nodes, views_static, views_build, detopts, symtab, fixuplinks
 
 def build(tier):
     ts = views_cache.targets(tier) + views_types.targets(tier) + views_nodes.targets(tier) + views_static.targets(tier)
     ts += [t for t in views_build.targets(tier) if t.id == "codec.ErrorInfo"]
-    ts += symtab.targets(tier)
+    ts += symtab.targets(tier) + symtab.targets_order(tier)
+    ts += fixuplinks.targets(tier)  # the transient CallableType.definition is re-linked on every loading path
     ts += detopts.set_order_targets()  # equal values give equal bytes, also for the writers not under a codec contract
-    return dict(targets=ts, assumptions=[], trusted_base=[])
+    return dict(targets=ts, assumptions=["fixup: the nested accept() calls (TypeFixer, nested nodes) do not assign CallableType.definition of the types handled by visit_func_def / visit_decorator / visit_overloaded_func_def (assumed frame)"], trusted_base=[])
